@@ -122,6 +122,8 @@ pub struct Runner<'a> {
     pub stats_refuse: u64,
     pub fault_fired_now: bool,
     pub set_ok: u64,
+    /// position() reported with the item being classified (disambiguates identical records)
+    hint_pos: Option<(u64, u64)>,
 }
 
 fn fnv128(s: &[&str]) -> u128 {
@@ -167,6 +169,7 @@ impl<'a> Runner<'a> {
             stats_refuse: 0,
             fault_fired_now: false,
             set_ok: 0,
+            hint_pos: None,
         }
     }
 
@@ -243,11 +246,13 @@ impl<'a> Runner<'a> {
         if self.m.strict {
             from = from.max(self.m.cur.min(self.n()));
         }
-        for i in from..self.n() {
-            if self.rec_eq(got, i, owned) {
-                self.m.post_last = Some(i);
-                return Ok(());
-            }
+        // identical records may occur several times in the input: prefer the occurrence whose
+        // coordinates are the reported position
+        let cands: Vec<usize> = (from..self.n()).filter(|&i| self.rec_eq(got, i, owned)).collect();
+        if let Some(&first) = cands.first() {
+            let by_pos = cands.iter().cloned().find(|&i| self.hint_pos.is_some() && self.coords(i) == self.hint_pos);
+            self.m.post_last = Some(by_pos.unwrap_or(first));
+            return Ok(());
         }
         let member = (0..self.n()).any(|i| self.rec_eq(got, i, owned));
         if member {
@@ -494,7 +499,19 @@ impl<'a> Runner<'a> {
                         other => viol("after-error", format!("{:?}: returned {} after the error (end of input expected)", op, other.show())),
                     },
                     Phase::Post => match it {
-                        Item::Rec(r) => self.post_member(&r, owned, &format!("{:?}", op)),
+                        Item::Rec(r) => {
+                            self.hint_pos = if self.sc.positions { pos } else { None };
+                            self.post_member(&r, owned, &format!("{:?}", op))?;
+                            self.hint_pos = None;
+                            // C05: also after an error, a reported position is the record's true location
+                            if self.sc.positions {
+                                let i = self.m.post_last.unwrap();
+                                if pos != self.coords(i) {
+                                    return viol("position-after-error", format!("{:?}: position() = {:?} after record {} (returned after an earlier error), true coordinates {:?}", op, pos, i, self.coords(i)));
+                                }
+                            }
+                            Ok(())
+                        }
                         Item::Err(e) if self.m.strict => self.strict_err(op, &e),
                         Item::End if self.m.strict => self.strict_end(op),
                         _ => Ok(()),
@@ -613,12 +630,13 @@ impl<'a> Runner<'a> {
                                     return viol("end-instead-of-error", format!("{:?}: end of input but the invalid record's error was never reported", op));
                                 }
                             }
-                            Ok(())
+                            // the set handed to a read that reported end of input may be iterated too
+                            self.iterate_after_failure(op, which)
                         }
                         SetRes::Panic(_) => unreachable!(),
                     },
                     Phase::Ended => match res {
-                        SetRes::End => Ok(()),
+                        SetRes::End => self.iterate_after_failure(op, which),
                         SetRes::Ok(v) => viol("after-error", format!("{:?}: batch of {} records after the error", op, v.len())),
                         SetRes::Err(e) => viol("after-error", format!("{:?}: {} after the error (end of input expected)", op, e.show())),
                         SetRes::Panic(_) => unreachable!(),
